@@ -22,6 +22,10 @@ trait El: Clone + std::fmt::Debug + 'static {
     fn clone_calls() -> Option<u64> {
         None
     }
+    /// destructor runs so far (element types with an observable Drop)
+    fn drops() -> Option<u64> {
+        None
+    }
 }
 impl El for u32 {
     fn mk(v: u32) -> u32 {
@@ -64,12 +68,52 @@ impl El for Cn {
     }
 }
 
+/// Drop glue: every value made (mk / clone) and every destructor run is counted (run `--elem dr`; values as for u32).
+struct Dr(u32);
+thread_local! {
+    static DR_MADE: std::cell::Cell<u64> = std::cell::Cell::new(0);
+    static DR_DROPS: std::cell::Cell<u64> = std::cell::Cell::new(0);
+}
+impl Clone for Dr {
+    fn clone(&self) -> Dr {
+        Dr::mk(self.0)
+    }
+}
+impl Drop for Dr {
+    fn drop(&mut self) {
+        DR_DROPS.with(|c| c.set(c.get() + 1));
+    }
+}
+impl std::fmt::Debug for Dr {
+    fn fmt(&self, f: &mut std::fmt::Formatter) -> std::fmt::Result {
+        std::fmt::Debug::fmt(&self.0, f)
+    }
+}
+impl El for Dr {
+    fn mk(v: u32) -> Dr {
+        DR_MADE.with(|c| c.set(c.get() + 1));
+        Dr(v)
+    }
+    fn val(&self) -> u32 {
+        self.0
+    }
+    fn drops() -> Option<u64> {
+        Some(DR_DROPS.with(|c| c.get()))
+    }
+}
+
 /// `it.clone()` with the direct oracles of an observable Clone: exactly one T::clone per remaining element, each
 /// taken from the original's own element (its use count goes up by one), the new elements fresh.
 fn clone_checked<E: El, N: ArrayLength>(it: &GenericArrayIter<E, N>) -> GenericArrayIter<E, N> {
     let calls = E::clone_calls();
     let uses: Vec<Option<u32>> = it.as_slice().iter().map(|e| e.uses()).collect();
+    let d0 = E::drops();
     let c = it.clone();
+    if let (Some(a), Some(b)) = (d0, E::drops()) {
+        if a != b {
+            PENDING.with(|p| p.borrow_mut().push(format!("clone() of an iterator with {} elements to come ran {} destructors (a clone drops nothing)", it.len(), b - a)));
+        }
+    }
     if let (Some(a), Some(b)) = (calls, E::clone_calls()) {
         let mut msg = None;
         if b - a != it.len() as u64 {
@@ -164,6 +208,13 @@ fn run<E: El, N: ArrayLength>(vals: &[i128], ops: &[i128]) -> Vec<i128> {
             8 => {
                 let c = clone_checked(&it);
                 list(&mut out, c.as_slice());
+                let (k, d0) = (c.len() as u64, E::drops());
+                drop(c);
+                if let (Some(a), Some(b)) = (d0, E::drops()) {
+                    if b - a != k {
+                        PENDING.with(|p| p.borrow_mut().push(format!("dropping a clone with {} elements to come ran {} destructors", k, b - a)));
+                    }
+                }
             }
             9 => {
                 let c = clone_checked(&it);
@@ -274,12 +325,28 @@ fn run_case(case: &[i128]) -> Vec<i128> {
     let ops = &case[1 + n..];
     let cn = std::env::args().any(|a| a == "cn");
     let zs = std::env::args().any(|a| a == "zs");
-    dispatch_len!(
+    let dr = std::env::args().any(|a| a == "dr");
+    let (m0, d0) = (DR_MADE.with(|c| c.get()), DR_DROPS.with(|c| c.get()));
+    let out = dispatch_len!(
         n,
         [U0, U1, U2, U3, U4, U5, U6, U7, U8, U16, U97, U1024],
-        |N| if cn { run::<Cn, N>(vals, ops) } else if zs { run::<Zs, N>(vals, ops) } else { run::<u32, N>(vals, ops) },
+        |N| if cn {
+            run::<Cn, N>(vals, ops)
+        } else if zs {
+            run::<Zs, N>(vals, ops)
+        } else if dr {
+            run::<Dr, N>(vals, ops)
+        } else {
+            run::<u32, N>(vals, ops)
+        },
         panic!("length {} not monomorphised", n)
-    )
+    );
+    // every value of the history is gone by now: as many destructor runs as values made
+    let (made, dropped) = (DR_MADE.with(|c| c.get()) - m0, DR_DROPS.with(|c| c.get()) - d0);
+    if made != dropped {
+        PENDING.with(|p| p.borrow_mut().push(format!("over the whole history {} element values were made and {} destructors ran", made, dropped)));
+    }
+    out
 }
 
 thread_local! {
